@@ -50,7 +50,11 @@ Targeted ==
 \* per-packet room (MTU - 1) where the element length field changes size
 Av1Edge ==
   Concat([mi \in 1..NM |-> LET m == MtuSeq[mi] IN
-    IF m < 3 \/ m > 2000 THEN <<>>
+    IF m < 3 THEN <<>>
+    ELSE IF m > 2000 THEN
+         \* element lengths around the 16383/16384 LEB128 boundary (only reachable with a large MTU)
+         [d \in 1..15 |-> [fam |-> "C08", kind |-> "av1", scribble |-> TRUE,
+            calls |-> <<C(m, "obu_two", IF m >= 16380 THEN 16376 + d ELSE m - 8 + d, d)>>, class |-> "av1_fragment_edge"]]
     ELSE [d \in 1..14 |-> [fam |-> "C08", kind |-> "av1", scribble |-> TRUE,
             calls |-> <<C(m, "obu_two", (IF d <= 7 THEN 2 ELSE 3) * (m - 1) + ((d - 1) % 7) - 4, d)>>, class |-> "av1_fragment_edge"]]])
 Raw == Concat([ki \in 1..Len(Kinds) |-> Single(ki) \o Hist(ki)]) \o Targeted \o Av1Edge
